@@ -274,6 +274,17 @@ impl Runner {
         StepOut { res, delivered, files, recv_calls, ticks }
     }
 
+    /// An empty read (EAGAIN when `eintr` is false, else EINTR): must return that stream error and
+    /// deliver nothing. Returns a description of the misbehaviour otherwise.
+    pub fn empty_read(&mut self, eintr: bool) -> Option<String> {
+        let (ev, want) = if eintr { (ReadEv::Interrupted, libc::EINTR) } else { (ReadEv::WouldBlock, libc::EAGAIN) };
+        let so = self.feed(ev);
+        if so.res != RR::StreamRead(want) || !so.delivered.is_empty() {
+            return Some(format!("a read that returned no data gave {:?} with {} deliveries", so.res, so.delivered.len()));
+        }
+        None
+    }
+
     /// Push one read event and perform one try_read.
     pub fn feed(&mut self, ev: ReadEv) -> StepOut {
         self.script.push_read(ev);
